@@ -604,6 +604,46 @@ func ruleTableNoRewrite(p *Prog, r *Report) {
 			})
 		}
 		scan(fn, 0)
+		// the buffer an encoding/json Encoder writes to receives nothing else: a document partly assembled by hand (keys quoted with
+		// strconv, braces and commas written directly) is not what encoding/json produces
+		seenF := map[*ssa.Function]bool{}
+		var scanHand func(f *ssa.Function, depth int)
+		scanHand = func(f *ssa.Function, depth int) {
+			if seenF[f] || depth > 3 {
+				return
+			}
+			seenF[f] = true
+			var encBufs []ssa.Value
+			eachInstr(f, func(b *ssa.BasicBlock, in ssa.Instruction) {
+				if c, ok := in.(*ssa.Call); ok {
+					if isCallTo(&c.Call, "encoding/json.NewEncoder") {
+						if mi, ok := c.Call.Args[0].(*ssa.MakeInterface); ok {
+							encBufs = append(encBufs, mi.X)
+						}
+					}
+					if g := staticCallee(&c.Call); g != nil && p.InModule(g) && !p.Exported(g) {
+						scanHand(g, depth+1)
+					}
+				}
+			})
+			eachInstr(f, func(b *ssa.BasicBlock, in ssa.Instruction) {
+				c, ok := in.(*ssa.Call)
+				if !ok || len(c.Call.Args) == 0 {
+					return
+				}
+				for _, eb := range encBufs {
+					if isCallTo(&c.Call, "(*bytes.Buffer).WriteString", "(*bytes.Buffer).WriteByte", "(*bytes.Buffer).WriteRune", "(*bytes.Buffer).Write") && c.Call.Args[0] == eb {
+						rewrites = append(rewrites, "direct "+extName(staticCallee(&c.Call))+" into the encoder's buffer at "+p.Pos(c.Pos()))
+					}
+					if isCallTo(&c.Call, "fmt.Fprintf", "fmt.Fprint", "fmt.Fprintln", "io.WriteString") {
+						if mi, ok := c.Call.Args[0].(*ssa.MakeInterface); ok && mi.X == eb {
+							rewrites = append(rewrites, "direct write into the encoder's buffer at "+p.Pos(c.Pos()))
+						}
+					}
+				}
+			})
+		}
+		scanHand(fn, 0)
 		if len(rewrites) > 0 {
 			r.Bad(rule, n, "encoded bytes are not rewritten", p.Pos(fn.Pos()), "the document produced by encoding/json is post-processed textually ("+strings.Join(uniq(rewrites), "; ")+"): string values that contain the replaced sequences are corrupted")
 		} else if encoder {
